@@ -19,3 +19,4 @@ def load_all():
     from . import render  # noqa
     from . import unit_system  # noqa
     from . import fraction  # noqa
+    from . import validation  # noqa
